@@ -40,7 +40,8 @@ def sig(b):
     hit = "multi" if any(x.startswith("multi_") for x in regs) else \
           "single" if any(x in ("single_raw", "single_comp", "listfile") for x in regs) else regs[0]
     label = str(r.get("case", ""))
-    session = label.endswith("-session") or "-s1-" in label
+    import re as _re
+    session = label.endswith("-session") or _re.search(r"-s[1-9][a-z]+-lf", label) is not None
     s = {"ev": rec.get("ev"), "why": why, "hit": hit, "session": session, "ver": cfg.get("ver"), "crc": cfg.get("crc"), "attrs": cfg.get("attrs"),
          "enc": cfg.get("enc"), "comp": cfg.get("comp"), "signed": cfg.get("signed"),
          "region": rec.get("region", rec.get("place", "")), "region_end": rec.get("region_end", "")}
